@@ -3,9 +3,10 @@
     [Proofs/RoundTrip*.v]) with their [Print Assumptions], and non-vacuity
     examples.
 
-    PARTIAL: the theorems cover the CORE sub-grammar of [Doc/DocGrammar.v]
-    (stages (a)-(d) of the plan), for ALL documents of that grammar
-    (unbounded depth and size) and ALL contexts:
+    Two grammars, ALL documents of each (unbounded depth and size), ALL contexts.
+
+    (1) The CORE grammar of [Doc/DocGrammar.v] (stages (a)-(d), (e2) of the plan;
+        theorems [C02_..._partial] without "2", first half of this file):
 
       item ::= Text ws cs          whitespace, then a non-empty run of inert characters
              | Grp ws body tr      ws { body tr }
@@ -13,57 +14,55 @@
                                    covered by its unknown-macro fallback, [APStd] signature made only
                                    of mandatory [{] arguments ([AKExpr]), any [a_delta]; control word
                                    with post-space, or control symbol)
-             | Math ws k body tr   ws $ body tr $  |  ws \( body tr \)  |  ws \[ body tr \]
+             | Math ws k body tr   ws $ body tr $  |  \( \)  |  \[ \]  |  $$ $$
                                    (only where the parsing state is not in math mode)
-      doc  ::= item* tr            (tr: whitespace before the end of input)
-
              | Cmt ws text post    ws % text post   (text without newline; post = the newline and the
                                    whitespace after it)
              | Par ws mid          ws newline mid newline   (a whitespace run with two or more
                                    newlines that ends with its last newline, in a context that has
                                    the [\n\n] specials without arguments; [ws] without newline)
-    with [ws], [tr], [post] whitespace runs containing at most one newline
-    (never a paragraph break); math kinds [$ $], [\( \)], [\[ \]], [$$ $$] (stage (e2)).
+      doc  ::= item* tr            (tr: whitespace before the end of input)
+    with [ws], [tr], [post] whitespace runs containing at most one newline.
 
-    The theorems named [...2_partial] (second half of this file) cover the
-    EXTENDED grammar of [Doc/DocGrammar2.v]: the above plus
+    (2) The EXTENDED grammar of [Doc/DocGrammar2.v] (stages (e1)-(e7); theorems
+        [C02_...2..._partial], second half of this file; the core grammar embeds:
+        [C02_core_grammar_embeds]).  Side conditions are evaluated against the
+        FOLLOW STRING of each item.  The above, with
+          - text characters = every character that is not whitespace, not [\ $ % { }] and at
+            which no specials sequence of the context matches ([a-b], [don't] are text);
+          - a comment may also end with the input, or stand before a paragraph break;
+          - a paragraph break may be followed by indentation and may come directly after a
+            control word / a comment (whose post-space then stops before its first newline);
+        plus
              | Env2 ws bws name args body tr ews
-                                   ws \begin bws {name} {arg}…{arg} body tr \end ews {name}   (stage (e1):
-                                   environments with mandatory brace arguments, body in math mode when
-                                   declared so)
-             | Spc2 ws chars args  ws chars {arg}…{arg}   (stage (e3): the specials sequences of the context,
-                                   e.g. [~ & -- --- `` ''], longest match as the tokenizer does it, with
-                                   mandatory brace arguments if the context declares any)
+                                   ws \begin bws {name} args body tr \end ews {name}   (body in math mode
+                                   when the environment is declared so)
+             | Spc2 ws chars args  ws chars args   (the specials sequences of the context, longest match)
+             | Vrb2 ws name post dc text      ws \name post dc text dc   (the verbatim macro)
+             | VEnv2 ws bws name oarg text    ws \begin bws {name} [oarg] text \end{name}   (verbatim
+                                   environments; optional argument written or absent)
+        and ARGUMENTS written per slot of the declared signature of the macro / environment /
+        specials:
+             mandatory slot        a braced group [Grp2 ws …], or ONE TOKEN: a character [Text2 ws [c]], a
+                                   control sequence [Mac2 ws name post []] (its own arguments are not
+                                   parsed), a specials sequence [Spc2 ws chars []]; whitespace [ws] and
+                                   comments [Pre2 ws text post a] in front where the slot allows it
+             delimited slot        [Brk2 ws oc cc body tr] = ws [ body tr ] (any pair of single-character
+                                   delimiters), or [Abs2] when optional and not written
+             marker slot           [Text2 ws [*]] or [Abs2]
+             verbatim slot         [Vba2 ws od cd text]
+        with: an absent argument is not followed (after whitespace) by its opening character nor
+        by a malformed escape sequence; the two delimiter characters are not text DIRECTLY in
+        the body of a delimited argument (they are inside its braced children); at most
+        8·(length of the call token) − 4 absent arguments per call (the fuel of the model).
 
-             | (arguments)         per slot of the declared signature (stage (e4)): a braced group with
-                                   whitespace in front of it where the slot allows it; a delimited argument
-                                   [ws [ body tr ]] (any pair of single-character delimiters) written, or
-                                   [Abs2] when it is optional and not written; the marker [ws *] written or
-                                   [Abs2]; an absent argument is not followed (after whitespace) by its
-                                   opening character; the delimiter characters are not text DIRECTLY in the
-                                   body of a delimited argument (they are inside its braced children)
-
-                                   (stage (e5)) a mandatory argument may also be ONE TOKEN: a character
-                                   [Text2 ws [c]], a control sequence [Mac2 ws name post []] (its own
-                                   arguments are not parsed), a specials sequence [Spc2 ws chars []]
-
-                                   (stage (e6)) in the extended grammar a comment may end with the input
-                                   ([Cmt2 ws text []], nothing after it) and a paragraph break may be
-                                   followed by indentation (the whitespace in front of what follows has no
-                                   newline)
-
-             | Vrb2 ws name post dc text      ws \name post dc text dc   (stage (e7): the verbatim macro)
-             | VEnv2 ws bws name oarg text    ws \begin bws {name} [oarg] text \end{name}   (stage (e7):
-                                   verbatim environments, with the optional argument of the signature
-                                   written, or absent)
-             | Vba2 ws od cd text  (argument position, stage (e7)) a verbatim argument [ws od text cd]
-             | Pre2 ws text post a (argument position) a comment [ws % text post] in front of the mandatory
-                                   argument [a] (only where the slot allows whitespace)
-
-    NOT covered:
-    paragraph-break whitespace in a context without the [\n\n] specials,
-    a delimited argument directly nested in the body of another one, a comment between the
-    arguments of a call in front of a NON-mandatory argument that is written.
+    STILL PARTIAL (hence the names): not in any theorem are
+      - a delimited argument written directly (not inside braces) in the body of another
+        delimited argument (there the parser reads ALL children in the extended state),
+      - a whitespace run with two or more newlines in a context WITHOUT the [\n\n] specials
+        (it is a character token there), or where the [\n\n] specials takes arguments,
+      - a paragraph break as the single-token argument of a macro.
+    These stay covered by the differential correspondence and the structure oracle only.
 
     Full statement (kept for reference, not proved):
       forall ctx d, ctx_wf ctx = true -> ok_doc ctx d = true ->
@@ -72,9 +71,7 @@
 
     No side condition on the context turned out to be necessary
     ([ctx_side_conditions] would be vacuous): everything the proof needs from
-    the context is a condition on the DOCUMENT and is part of [ok_doc] (the
-    macros used have mandatory-brace signatures; text characters do not start
-    a specials sequence of the context). *)
+    the context is a condition on the DOCUMENT and is part of [ok_doc] / [ok_doc2]. *)
 From Coq Require Import NArith List Bool Arith.
 From PLV Require Import Base.PyStr Tok.PState Tok.Tokenizer Parse.Nodes Parse.Parser Parse.ParseWire
                         Gen.GenWalkerCtx Doc.DocGrammar Doc.DocGrammar2
